@@ -12,10 +12,20 @@
 (* prefix closed, and that a deterministic generator (all digests 1) is    *)
 (* accepted.  Every plan (digests ignored) is emitted once per base as a   *)
 (* tour case for the real generator.                                        *)
+(*                                                                           *)
+(* Request shapes (GenRequest): besides the numbered bases (linked file     *)
+(* sets) every plan whose modes lie in ShapeModes and whose length is       *)
+(* MaxPlan is emitted for every custom-option shape at the sites            *)
+(* ShapeSites.  On the specification TLC checks that the shapes fall into   *)
+(* the two classes order free / not order free as characterised, and - for  *)
+(* every plan and every assignment of visiting orders to its runs - that    *)
+(* the history oracle accepts the abstract sorting generator always and     *)
+(* the abstract ranging generator exactly when all runs saw one order       *)
+(* (which is forced on order-free requests: they cannot expose it).         *)
 (***************************************************************************)
-EXTENDS GenHistory, Json
+EXTENDS GenHistory, GenRequest, Json
 
-CONSTANTS Modes, Perms, Digs, MaxPlan, Bases, Par0
+CONSTANTS Modes, Perms, Digs, MaxPlan, Bases, Par0, ShapeSites, ShapeModes
 
 VARIABLES plan, hist
 Init == plan = <<>> /\ hist = <<>>
@@ -32,11 +42,30 @@ DeterministicAccepted == (\A i \in 1..Len(hist) : hist[i].dig = 1 /\ hist[i].fil
                             (RespDeterministic(hist) /\ FilesDeterministic(hist) /\ SameFileSets(hist))
 \* a response that changes for the same request is rejected at the first repetition
 Sensitive == \A i, j \in 1..Len(hist) : (i < j /\ hist[i].key = hist[j].key /\ hist[i].dig # hist[j].dig) => ~RespDeterministic(hist)
-Laws == TwoDefinitionsAgree /\ PrefixClosed /\ DeterministicAccepted /\ Sensitive
+
+\* ---- request shapes
+ShapeClasses == \A s \in OptShapes : OrderFree(s) <=> ~(s.typ \in {"map", "submap"} /\ s.n >= 2)
+LawShapes == {s \in OptShapes : s.site = "file" /\ s.decl = "same"}      \* one per (typ, n): nothing else enters the laws
+AbstractHist(g, s, os) == [i \in 1..Len(plan) |-> [key |-> plan[i].perm, err |-> "", dig |-> Observe(g, s, os[i]),
+                                                   files |-> <<[n |-> "file", d |-> Observe(g, s, os[i])]>>]]
+Exposure == \A g \in Generators, s \in LawShapes : \A os \in [1..Len(plan) -> Orders(s)] :
+              LET h == AbstractHist(g, s, os) IN
+              (RespDeterministic(h) /\ FilesDeterministic(h)) <=> (g = "sorting" \/ \A i, j \in 1..Len(plan) : os[i] = os[j])
+\* an order-free request cannot tell the two generators apart, whatever the plan
+BlindSpot == \A s \in LawShapes : OrderFree(s) => \A os \in [1..Len(plan) -> Orders(s)] :
+               AbstractHist("ranging", s, os) = AbstractHist("sorting", s, os)
+Laws == /\ TwoDefinitionsAgree /\ PrefixClosed /\ DeterministicAccepted /\ Sensitive
+        /\ (Len(plan) > 0 \/ ShapeClasses) /\ Exposure /\ BlindSpot
 
 \* tour: each plan once (on the transitions of the run that observes only digest 1), for every base
 Canon == \A i \in 1..Len(hist') : hist'[i].dig = 1 /\ hist'[i].files[1].d = 1
-Emit == Canon => \A b \in Bases :
+EmitBases == Canon => \A b \in Bases :
           LET e == [op |-> "plan", base |-> [set |-> b, seed |-> 0, par |-> Par0 + 5 * b], steps |-> plan'] IN
           PrintT("@@" \o ToJson(e @@ [exp |-> Expect(e)]))
+TourShapes == {s \in OptShapes : s.site \in ShapeSites}
+ShapePlan(p) == Len(p) = MaxPlan /\ \A i \in 1..Len(p) : p[i].mode \in ShapeModes
+EmitShapes == (Canon /\ ShapePlan(plan')) => \A s \in TourShapes :
+          LET e == [op |-> "plan", base |-> [set |-> 0 - 2, seed |-> 0, par |-> ParOf(s, Par0), opt |-> s], steps |-> plan'] IN
+          PrintT("@@" \o ToJson(e @@ [exp |-> Expect(e)]))
+Emit == EmitBases /\ EmitShapes
 =============================================================================
